@@ -56,6 +56,12 @@ def install(lw):
                                monitor="SimulationResult.__init__", mechanism="simres_lists")
             last_i = {s: k for k, s in enumerate(self.inputs)}
             last_o = {s: k for k, s in enumerate(self.outputs)}
+            for i in self.inputs:
+                # the documented one-element / (input, None) forms of pair indexing give the whole row
+                if dict(self[(i,)]) != dict(self[i]) or dict(self[i, None]) != dict(self[i]):
+                    circmon.report("C17", f"r[(i,)] / r[i, None] differ from r[i] for i={i}",
+                                   monitor="SimulationResult.__init__", mechanism="simres_index")
+                    return
             for k, i in enumerate(self.inputs):
                 for l, o in enumerate(self.outputs):
                     # with duplicate states in a list the dictionary keeps the last one
@@ -169,8 +175,18 @@ def run(ctx):
         n_in = int(rng.integers(1, 7))
         n_out = int(rng.integers(1, 21))
 
+        state_form = str(rng.choice(["ints", "ints", "ints", "np.int64 list", "ndarray", "tuple"]))
+        ctx.bucket("states_built_from:" + state_form)
+
         def rs():
-            return State([int(x) for x in rng.integers(0, max_occ + 1, size=k)])
+            occ = rng.integers(0, max_occ + 1, size=k)
+            if state_form == "np.int64 list":
+                return State([np.int64(x) for x in occ])
+            if state_form == "ndarray":
+                return State(np.array(occ))
+            if state_form == "tuple":
+                return State(tuple(int(x) for x in occ))
+            return State([int(x) for x in occ])
         ins = list(dict.fromkeys(rs() for _ in range(n_in)))
         outs = list(dict.fromkeys(rs() for _ in range(n_out)))
         kind = str(rng.choice(["probability", "probability", "probability_amplitude"]))
@@ -195,13 +211,17 @@ def run(ctx):
             ctx.bucket("empty_row")
         mapping = str(rng.choice(["apply_threshold_mapping", "apply_parity_mapping"]))
         invert = bool(rng.random() < 0.5)
+        # the flag in the forms a caller may hold it in (a Python bool, 0/1, the result of a numpy comparison)
+        inv_form = str(rng.choice(["bool", "bool", "int", "np.bool_"]))
+        inv_arg = {"bool": invert, "int": int(invert), "np.bool_": np.bool_(invert)}[inv_form]
+        ctx.bucket("invert_given_as:" + inv_form)
         fn = thr if "threshold" in mapping else par
         images = [fn(list(o), invert) for o in outs]
         merges = len(images) - len(set(images))
         if merges:
             ctx.bucket("preimages_merge")
-        case = {"inputs": [s.s for s in ins], "outputs": [s.s for s in outs], "type": kind, "mapping": mapping,
-                "invert": invert}
+        case = {"inputs": [[int(x) for x in s.s] for s in ins], "outputs": [[int(x) for x in s.s] for s in outs], "type": kind,
+                "mapping": mapping, "invert": invert, "invert_given_as": inv_form, "states_built_from": state_form}
         container = "sim" if rng.random() < 0.6 else "samp"
         try:
             if container == "sim":
@@ -210,14 +230,14 @@ def run(ctx):
                 if kind == "probability_amplitude":
                     ctx.bucket("amplitude_refused")
                     try:
-                        getattr(r, mapping)(invert)
+                        getattr(r, mapping)(inv_arg)
                     except ValueError:
                         pass
                 else:
-                    m1 = getattr(r, mapping)(invert)
+                    m1 = getattr(r, mapping)(inv_arg)
                     if rng.random() < 0.6:
                         ctx.bucket("repeated_application")
-                        m2 = getattr(m1, mapping)(invert)
+                        m2 = getattr(m1, mapping)(invert=inv_arg)
                         if "threshold" in mapping and not invert:
                             # idempotent
                             for i in ins:
@@ -232,10 +252,10 @@ def run(ctx):
                 ctx.bucket("sampling_result")
                 counts = {o: int(v) for o, v in zip(outs, rng.integers(0, 1000, size=len(outs)))}
                 r = SM(counts, ins[0])
-                m1 = getattr(r, mapping)(invert)
+                m1 = getattr(r, mapping)(inv_arg)
                 if rng.random() < 0.6:
                     ctx.bucket("repeated_application")
-                    getattr(m1, mapping)(invert)
+                    getattr(m1, mapping)(invert=inv_arg)
                     getattr(m1, "apply_parity_mapping")(not invert)
         except Exception as e:  # noqa: BLE001
             ctx.violation(f"{container} {mapping} raised {type(e).__name__}: {e}", case=case,
